@@ -367,6 +367,19 @@ func writeRuleHash(state *core.BuildState, target *core.BuildTarget) error {
 	return nil
 }
 
+// removeRuleHash removes the hashes that writeRuleHash attached to the outputs of a target.
+// It must be called before the outputs or the build metadata are replaced so that a build
+// which is interrupted part way is never mistaken for an up-to-date one later on.
+func removeRuleHash(target *core.BuildTarget) {
+	outputs := target.FullOutputs()
+	if len(outputs) == 0 {
+		fs.RemoveAttr(filepath.Join(target.OutDir(), target.Label.Name), xattrName)
+	}
+	for _, output := range outputs {
+		fs.RemoveAttr(output, xattrName)
+	}
+}
+
 func targetBuildMetadataFileName(target *core.BuildTarget) string {
 	return filepath.Join(target.OutDir(), target.TargetBuildMetadataFileName())
 }
